@@ -49,6 +49,7 @@ type OwnersScenario struct {
 	Refresh     []string  `json:"refresh"`    // the refresher goroutine's script: updmeta updsize metadata queryall hasall
 	EventDriven bool      `json:"event_driven"`
 	Rounds      int       `json:"rounds"`
+	Counters    bool      `json:"counters,omitempty"` // C15: judge the exported counters at the end of every round
 }
 
 var ownLeaves = [][]string{{"a", "b"}, {"a", "c"}, {"d"}, {"e", "f", "g"}, {"e", "f", "h"}}
@@ -282,6 +283,31 @@ func ownersRound(sc *OwnersScenario, round int, st map[string]bool) error {
 	if len(stray) > 0 {
 		return fmt.Errorf("round %d: the change feed announced changes for targets that never existed: %v", round, stray)
 	}
+	// C15 (part owners of C15 runs the same scripts): at this quiescent point one more refresh exports the counters;
+	// for every target the exported leaf count equals the non-metadata leaves stored and added - deleted.
+	if sc.Counters {
+		c.UpdateMetadata()
+		for _, name := range append(append([]string{}, names...), bys...) {
+			if !c.HasTarget(name) {
+				continue
+			}
+			stored, _ := contentOf(c, name)
+			exp := map[string]int64{}
+			c.Query(name, []string{metadata.Root, "*"}, func(p []string, _ *ctree.Leaf, v interface{}) error {
+				if n, ok := v.(*pb.Notification); ok && len(p) == 2 && len(n.GetUpdate()) == 1 {
+					exp[p[1]] = n.GetUpdate()[0].GetVal().GetIntVal()
+				}
+				return nil
+			})
+			if got := exp[metadata.LeafCount]; got != int64(len(stored)) {
+				return fmt.Errorf("round %d: target %s exports %s=%d at a quiescent point, %d non-metadata leaves are stored (the targets were driven by their own goroutines next to the refresh loops)", round, name, metadata.LeafCount, got, len(stored))
+			}
+			if a, d := exp[metadata.AddCount], exp[metadata.DelCount]; a-d != int64(len(stored)) {
+				return fmt.Errorf("round %d: target %s exports added=%d deleted=%d at a quiescent point, %d non-metadata leaves are stored", round, name, a, d, len(stored))
+			}
+		}
+		st["counters"] = true
+	}
 	st["rounds"] = true
 	return nil
 }
@@ -501,6 +527,28 @@ func TestC14Owners(t *testing.T) {
 			labels = append(labels, "refresh-loops-running")
 		}
 		rec.Case(sc, len(sc.Scripts) > 1 && kinds["reset"] && kinds["remove"], labels...)
+		if err != nil {
+			rt.Fatalf("%s", rec.Fail(sc, "owners", "%v", err))
+		}
+	})
+}
+
+// TestC15Owners: the owners scripts with the refresh loops always running and the exported counters judged at the
+// quiescent end of every round (C15: counters are truthful for every schedule; every goroutine finishes).
+func TestC15Owners(t *testing.T) {
+	if !vstat.Enabled("C15") {
+		t.Skip()
+	}
+	rec := vstat.New("C15", "owners")
+	rec.Note("free-running part: scripts are a function of the seed, schedules are the real scheduler's; a replay re-runs the scripts for 20x the rounds")
+	rec.RunRapid(t, func(rt *rapid.T) {
+		sc := genOwners(rt)
+		sc.Counters = true
+		// the collector's refresh loops, densely: size and metadata refreshes next to every owner's updates
+		sc.Refresh = append(sc.Refresh, "updsize", "updmeta", "updsize", "updmeta", "updsize", "updsize", "updmeta", "updsize")
+		rec.Current(sc)
+		_, err := runOwners(t, sc)
+		rec.Case(sc, len(sc.Scripts) > 1, fmt.Sprintf("owners=%d", len(sc.Scripts)), "refresh-loops-running", "exported-counters-judged-at-quiescence")
 		if err != nil {
 			rt.Fatalf("%s", rec.Fail(sc, "owners", "%v", err))
 		}
